@@ -14,12 +14,17 @@ use std::path::PathBuf;
 /// open (with or without index) over instrumented sources and traverse: sequential
 /// generic iteration; returns the result record of cmd_codec::read_reader
 pub fn traverse(c: &Conc, shp: LogSource, shx: Option<LogSource>, t: i32, random: bool, n: usize) -> Value {
+    traverse_as(c, shp, shx, t, random, n, true)
+}
+
+/// `generic = false`: the typed entry points (iter_shapes_as::<S>, read_nth_shape_as::<S>) for the file's type
+pub fn traverse_as(c: &Conc, shp: LogSource, shx: Option<LogSource>, t: i32, random: bool, n: usize, generic: bool) -> Value {
     let opened = guarded(|| match shx {
         Some(x) => ShapeReader::with_shx(shp, x),
         None => ShapeReader::new(shp),
     });
     match opened {
-        Ok(Ok(r)) => read_reader(c, r, t, true, random, n),
+        Ok(Ok(r)) => read_reader(c, r, t, generic, random, n),
         Ok(Err(e)) => open_err(&e),
         Err(p) => json!({"items": [], "openErr": "", "err": "panic", "code": 0, "msg": p, "nonePastEnd": true}),
     }
@@ -75,8 +80,9 @@ pub fn run(a: &Args) {
                             if random && (!with_idx || l % 4 != 0) {
                                 continue;
                             }
-                            let res = traverse(&c, LogSource::new(f.shp[..l].to_vec()),
-                                               if with_idx { Some(LogSource::new(f.shx.clone())) } else { None }, t, random, n);
+                            // every other length through the typed entry points
+                            let res = traverse_as(&c, LogSource::new(f.shp[..l].to_vec()),
+                                                  if with_idx { Some(LogSource::new(f.shx.clone())) } else { None }, t, random, n, l % 2 == 0);
                             tr.emit(json!({"ev": "trunc", "which": "shp", "len": l, "withIdx": with_idx, "random": random, "res": res}));
                             cases += 1;
                         }
